@@ -137,6 +137,12 @@ def acl_list():
         # one generator with two rules matching the row 'a': a protected specific rule and a deletable catch-all
         # (a generator may delete a row when ANY of its matching rules allows it)
         ("a-cd+any", lambda: [ARule("a", [ARule("c")], cant_delete=True), ARule("~", [ARule("c")])]),
+        # one row ('b x') matched by three differently spelled rules ranked local (literal) > %global > local (catch-all):
+        # the child rules of BOTH local rules apply inside the block, whatever stands between them in the ranking
+        ("ovl3", lambda: [ARule("b x", [ARule("c")]), ARule("b *", glob=True), ARule("~", [ARule("a")])]),
+        ("ovl-lit+glob", lambda: [ARule("b x", [ARule("c")]), ARule("b *", glob=True)]),
+        ("ovl-any", lambda: [ARule("~", [ARule("a")])]),
+        ("ovl-any-c", lambda: [ARule("~", [ARule("c")])]),
     ]
 
 
@@ -276,7 +282,7 @@ def ref_outcome(specs):
     return ("ok", refacl.ref_filter(merged_lvl, union, PREFIX))
 
 
-BASE_INDENT = {"all": 8, "a-block": 12, "a-block-del": 8, "a-any": 4, "b-only": 12, "leafs": 8, "leafs-cd": 12, "empty": 0, "a-cd+any": 8}
+BASE_INDENT = {"ovl3": 8, "ovl-lit+glob": 12, "ovl-any": 4, "ovl-any-c": 8, "all": 8, "a-block": 12, "a-block-del": 8, "a-any": 4, "b-only": 12, "leafs": 8, "leafs-cd": 12, "empty": 0, "a-cd+any": 8}
 
 
 def indent_text(text, n):
@@ -321,7 +327,8 @@ def setup():
 ACL_PAIRS_Q = [("all", "all"), ("all", "leafs"), ("a-block", "a-block"), ("a-block", "a-block-del"), ("a-block-del", "a-block-del"),
                ("a-any", "a-block"), ("leafs", "leafs"), ("leafs", "leafs-cd"), ("leafs-cd", "leafs-cd"), ("b-only", "a-block"),
                ("a-block", "leafs"), ("a-any", "all"), ("empty", "all"), ("a-block", "b-only"), ("leafs-cd", "a-block"), ("a-any", "a-any"),
-               ("a-cd+any", "a-block-del"), ("a-block-del", "a-cd+any"), ("a-cd+any", "a-block"), ("a-cd+any", "a-cd+any")]
+               ("a-cd+any", "a-block-del"), ("a-block-del", "a-cd+any"), ("a-cd+any", "a-block"), ("a-cd+any", "a-cd+any"),
+               ("ovl-lit+glob", "ovl-any"), ("ovl-any", "ovl-lit+glob"), ("ovl-lit+glob", "ovl-any-c")]
 
 
 def blocks(tier, seed):
